@@ -170,6 +170,14 @@ pub fn build_plan(calls: &[Vec<Value>]) -> libcnb::data::build_plan::BuildPlan {
                 r.metadata(json_to_toml(&c[2])).expect("metadata must be a table");
                 b = b.requires(r);
             }
+            // metadata set several times on one Require: ["requires_meta_n", name, {..}, {..}, ...]
+            "requires_meta_n" => {
+                let mut r = Require::new(c[1].as_str().unwrap());
+                for m in &c[2..] {
+                    r.metadata(json_to_toml(m)).expect("metadata must be a table");
+                }
+                b = b.requires(r);
+            }
             "or" => b = b.or(),
             other => panic!("unknown plan call {other}"),
         }
@@ -370,6 +378,24 @@ pub fn run_ops(ctx: &BuildContext<VB>, ops: &[Value], src_dir: &Path) -> libcnb:
                 get(&refs)?;
                 let AnyRef::C(r) = &refs[&name_s];
                 let progs: Vec<(String, PathBuf)> = op["programs"].as_object().cloned().unwrap_or_default().iter().map(|(k, v)| (k.clone(), src_dir.join(v.as_str().unwrap()))).collect();
+                r.write_exec_d_programs(progs)?;
+            }
+            // the same program name may be registered several times, from sources below different
+            // roots: [[name, src], ...]; a source "ALT:<file>" lies in the directory $VERIF_ALT_SRC
+            "write_exec_d_pairs" => {
+                get(&refs)?;
+                let AnyRef::C(r) = &refs[&name_s];
+                let alt = PathBuf::from(std::env::var_os("VERIF_ALT_SRC").unwrap_or_default());
+                let progs: Vec<(String, PathBuf)> = op["programs"]
+                    .as_array()
+                    .cloned()
+                    .unwrap_or_default()
+                    .iter()
+                    .map(|p| {
+                        let src = p[1].as_str().unwrap();
+                        (p[0].as_str().unwrap().to_string(), match src.strip_prefix("ALT:") { Some(f) => alt.join(f), None => src_dir.join(src) })
+                    })
+                    .collect();
                 r.write_exec_d_programs(progs)?;
             }
             "put_file" => {
